@@ -18,6 +18,9 @@ func (k msgServer) NonVotingUndelegate(ctx context.Context, msg *types.MsgNonVot
 	}
 
 	// Validate amount
+	if msg.Amount.Amount.IsNil() {
+		return nil, errorsmod.Wrap(sdkerrors.ErrInvalidCoins, "undelegate amount cannot be empty")
+	}
 	feeDenom, err := k.feeKeeper.FeeDenom(ctx)
 	if err != nil {
 		return nil, err
